@@ -81,7 +81,7 @@ def enumerate_trees(env, max_nodes):
                 out.extend(('pow', c, e) for c in POW)
                 out.extend(('cexp', c, e) for c in CEXP)
         for e in V.get(k - 1, ()):
-            s.extend(('red', r, e) for r in '+*')
+            s.extend(('red', r, e) for r in '+*|&')
             if e[0] != 'var':
                 s.extend(('vidx', e, i) for i in range(vlen))
             v.extend(('each', lam, e) for lam in sorted(dual.LAMBDAS))
